@@ -84,7 +84,7 @@ func runC12Stream(rc *RunCtx) {
 			invokedAfterClose := h.closeRet
 			c, err := h.ln.AcceptStream()
 			if err != nil && !errors.Is(err, net.ErrClosed) && w.AcceptErr > 0 {
-				// an injected transient accept error (ECONNABORTED) surfaces on whichever
+				// an injected transient accept error (EMFILE) surfaces on whichever
 				// handle took it; the handle stays usable
 				rc.Probe("transient_accept_error_delivered")
 				continue
